@@ -145,7 +145,6 @@ var fixtureServer = []string{
 	"CREATE DATABASE d3",
 }
 
-
 // newFix builds a populated engine under the given mode.
 //
 //	engine_ro      sqle.Config{IsReadOnly: true}
@@ -439,6 +438,9 @@ func main() {
 			noRep = append(noRep, c.Kind)
 		}
 		for _, r := range rs {
+			if !r.runsOn(c.Tab) {
+				continue
+			}
 			id++
 			if (len(want) > 0 && !want[id]) || repIdx[r.name]%shN != shI {
 				continue
